@@ -47,6 +47,11 @@ pub struct C14Spec {
     /// the first instance is dropped while its owner unwinds from a panic
     /// (caught by the harness): `drop` must quiesce the store all the same
     pub unwind_drop: bool,
+    /// one EIO at any write / fdatasync / unlink of the FIRST instance's worker
+    /// (a failed write or unlink makes that worker quit with requests still
+    /// queued); judged: `drop` returns, the old worker has quit by then and
+    /// changes nothing afterwards, re-opening does not panic
+    pub worker_faults: bool,
 }
 
 fn vio(spec: &C14Spec, key: &str, what: String, extra: serde_json::Value) -> Violation {
@@ -59,6 +64,7 @@ fn vio(spec: &C14Spec, key: &str, what: String, extra: serde_json::Value) -> Vio
             "phase1": spec.phase1.iter().map(crate::schedx::sop_to_json).collect::<Vec<_>>(),
             "phase1_text": shist_short(&spec.phase1),
             "unwind_drop": spec.unwind_drop,
+            "worker_faults": spec.worker_faults,
             "cfg": cfg_to_json(&spec.cfg),
             "extra": extra,
         }),
@@ -69,6 +75,7 @@ fn vio(spec: &C14Spec, key: &str, what: String, extra: serde_json::Value) -> Vio
 struct Out {
     problems: Vec<(String, String)>,
     drop1_done: bool,
+    notes: Vec<String>,
 }
 
 fn exec_write(rl: &mut raft_log::RaftLog<crate::vt::VT>, w: &Op) -> Result<(), String> {
@@ -115,6 +122,9 @@ fn body(spec: C14Spec, pl: Arc<Plan>, dir: String, out: Arc<Mutex<Out>>) {
         match op {
             SOp::W(w) => {
                 if let Err(e) = exec_write(&mut rl1, w) {
+                    if spec.worker_faults {
+                        break;
+                    }
                     problem("op-failed", format!("{} on the first instance: {}", w.short(), e));
                 }
             }
@@ -122,6 +132,9 @@ fn body(spec: C14Spec, pl: Arc<Plan>, dir: String, out: Arc<Mutex<Out>>) {
                 let cb = acks1.cb(nflush);
                 nflush += 1;
                 if let Err(e) = rl1.flush(Some(cb)) {
+                    if spec.worker_faults {
+                        break;
+                    }
                     problem("op-failed", format!("flush on the first instance: {}", e));
                 }
             }
@@ -131,6 +144,7 @@ fn body(spec: C14Spec, pl: Arc<Plan>, dir: String, out: Arc<Mutex<Out>>) {
                     Some(AckEvent::Sent { ok: true, .. }) => {
                         acked_records = acked_records.max(pl.recs_before_op[pl.flush_ops[id as usize]]);
                     }
+                    _ if spec.worker_faults => break,
                     other => problem("flush-not-acknowledged-ok", format!("flush {} of the first instance: {:?}", id, other)),
                 }
             }
@@ -153,6 +167,24 @@ fn body(spec: C14Spec, pl: Arc<Plan>, dir: String, out: Arc<Mutex<Out>>) {
     sched::set_extra_bits(0);
     sched::note("drop1-returned".to_string());
     out.lock().unwrap().drop1_done = true;
+    if spec.worker_faults {
+        // what the directory looks like after a failed worker is C05's business
+        // (an unfinished rotation leaves the known gap); here: no panic
+        sched::op_gate("open2", OpGate::Always, 0);
+        match open_store(&dir, &spec.cfg) {
+            Err(e) if e.starts_with("PANIC") => problem("reopen-after-worker-failure-panicked", e),
+            Err(_) => out.lock().unwrap().notes.push("reopen-refused-after-worker-failure".to_string()),
+            Ok(rl2) => {
+                let inst2 = sched::current_inst();
+                sched::op_gate("drop2", OpGate::Always, sched::R_CHAN | sched::R_LOCK);
+                sched::set_extra_bits(sched::R_CHAN | sched::R_LOCK);
+                drop(rl2);
+                sched::mark_sender_dropped(inst2);
+                sched::set_extra_bits(0);
+            }
+        }
+        return;
+    }
 
     // ---- second instance -----------------------------------------------------
     sched::op_gate("open2", OpGate::Always, 0);
@@ -242,6 +274,15 @@ fn body(spec: C14Spec, pl: Arc<Plan>, dir: String, out: Arc<Mutex<Out>>) {
 }
 
 pub fn explore(spec: &C14Spec, vios: &mut Vec<Violation>, stats: &mut SchedStats, deadline: Instant) -> Result<(), Machinery> {
+    if spec.worker_faults {
+        let mut dfs = Dfs::new(1, FaultPolicy::WorkerEioUnlink);
+        dfs.fault_inst = Some(0);
+        // a drop that never returns is a possible verdict here, not a machinery failure
+        sched::set_park_timeout(Some(std::time::Duration::from_secs(20)));
+        let r = explore_with(spec, vios, stats, deadline, dfs);
+        sched::set_park_timeout(None);
+        return r;
+    }
     explore_with(spec, vios, stats, deadline, Dfs::new(0, FaultPolicy::None))
 }
 
@@ -286,6 +327,7 @@ pub fn replay(r: &serde_json::Value) -> i32 {
         cfg: crate::seqx::cfg_from_json(&r["cfg"]),
         max_executions: 1,
         unwind_drop: r["unwind_drop"].as_bool().unwrap_or(false),
+        worker_faults: r["worker_faults"].as_bool().unwrap_or(false),
     };
     let mut vios = vec![];
     let mut stats = SchedStats::default();
@@ -325,6 +367,20 @@ fn explore_with(spec: &C14Spec, vios: &mut Vec<Violation>, stats: &mut SchedStat
         };
         let res = sched::run_execution(vec![(ThreadKind::Caller, b)], &mut dfs);
         if let Some(h) = &res.hung {
+            let in_drop = res.trace.iter().any(|e| matches!(e, Event::Step { label, .. } if label.contains("drop1")))
+                && !res.trace.iter().any(|e| matches!(e, Event::Note(n) if n == "drop1-returned"));
+            if spec.worker_faults && in_drop {
+                let sched_json = json!(dfs.schedule().iter().map(|(t, l)| format!("{}:{}", t, l)).collect::<Vec<_>>());
+                vios.push(vio(
+                    spec,
+                    "drop-does-not-return-after-worker-failure",
+                    format!("the store's drop did not return (no progress for 20 s, the caller is inside drop, every other thread has finished or is parked): {}", h),
+                    json!({"schedule": sched_json}),
+                ));
+                // the stuck thread stays behind in this process: stop exploring here
+                stats.tainted = true;
+                return Ok(());
+            }
             return Err(Machinery(format!("hang: {} | [{}]", h, shist_short(&spec.phase1))));
         }
         if let Some(d) = &dfs.divergence {
@@ -367,7 +423,23 @@ fn explore_with(spec: &C14Spec, vios: &mut Vec<Violation>, stats: &mut SchedStat
         for (k, w) in &o.problems {
             vios.push(vio(spec, &format!("{}{}", pfx, k), w.clone(), json!({"schedule": sched_json})));
         }
-        if res.worker_failed.iter().any(|x| *x) {
+        for n in &o.notes {
+            *stats.outcomes.entry(n.clone()).or_insert(0) += 1;
+        }
+        if spec.worker_faults {
+            // an injected fault may well stop the first worker; the second instance gets none
+            if res.worker_failed.first().copied().unwrap_or(false) {
+                *stats.outcomes.entry("first-worker-stopped-by-injected-fault".to_string()).or_insert(0) += 1;
+            }
+            if old_worker_steps_after_drop > 0 {
+                vios.push(vio(
+                    spec,
+                    "old-worker-still-running-after-drop-after-worker-fault",
+                    "after drop returned the first instance's worker still took steps".to_string(),
+                    json!({"schedule": sched_json}),
+                ));
+            }
+        } else if res.worker_failed.iter().any(|x| *x) {
             vios.push(vio(
                 spec,
                 &format!("{}worker-died", pfx),
